@@ -394,6 +394,7 @@ package graph
 //@   requires hdrN(s, (g6prefix(s) ? 10 : 0)) <= 4096
 //@   ensures result1 != nil || (sizesDense(result0) && result0.NumberOfVertices == hdrN(s, (g6prefix(s) ? 10 : 0)))
 //@   ensures result1 == nil ==> forall p in 0..tri(result0.NumberOfVertices): result0.Edges[p] == g6bit(s, (g6prefix(s) ? 10 : 0) + g6hdrLen(s, (g6prefix(s) ? 10 : 0)), p)
+//@   ensures [succeeds] ((forall t in (g6prefix(s) ? 10 : 0)..len(s): 63 <= s[t] && s[t] <= 126) && 1 <= g6hdrLen(s, (g6prefix(s) ? 10 : 0)) && g6hdrLen(s, (g6prefix(s) ? 10 : 0)) <= 4 && len(s) >= (g6prefix(s) ? 10 : 0) + g6hdrLen(s, (g6prefix(s) ? 10 : 0)) + (tri(hdrN(s, (g6prefix(s) ? 10 : 0))) + 5) / 6) ==> result1 == nil
 //@   opt lemmas=triMono
 //@   loop 1
 //@     invariant 0 <= i && i <= len(s) && sameslice(s, (g6prefix(old(s)) ? old(s)[10:] : old(s)))
